@@ -1409,8 +1409,8 @@ func runCase(o *outT, idx int, seed uint64) (rspec *caseSpec, rwant []string) {
 					o.Fail(step, "nondeterministic-across-configurations", fmt.Sprintf("%s vs default: %s", p.n.name, diffObs(ref, got)))
 				}
 			}
-			// known finding, kept narrow: the previous block carried a SUCCESSFUL stop() of a
-			// validator contract and it is the staking contract's finalize() that now reverts
+			// known finding, kept narrow: the previous block carried a SUCCESSFUL stop() or
+			// undelegate() on a validator contract and it is the staking contract's finalize() that now reverts
 			// (mint still succeeds); anything else is a plain violation
 			cls := "own-block-not-applied"
 			if prevStop && strings.Contains(ref, "commit failed for application: execution reverted") {
@@ -1432,16 +1432,18 @@ func runCase(o *outT, idx int, seed uint64) (rspec *caseSpec, rwant []string) {
 			o.Count("exec:block-unappliable")
 			break
 		}
-		// did this block carry a successful stop() of a validator contract?
+		// did this block carry a successful stop() / undelegate() on a validator contract
+		// (the two calls by which a validator leaves the set)?
 		prevStop = false
 		if repInfo != nil {
-			stopID := valABI.Methods["stop"].ID
+			leaveIDs := [][]byte{valABI.Methods["stop"].ID, valABI.Methods["undelegate"].ID}
 			p := 0
 			for _, tx := range blk.Transactions() {
 				if p < len(repInfo.Receipts) && repInfo.Receipts[p].TxHash == tx.Hash() {
 					rc := repInfo.Receipts[p]
 					p++
-					if rc.Status == 1 && tx.To() != nil && len(tx.Data()) >= 4 && bytes.Equal(tx.Data()[:4], stopID) {
+					if rc.Status == 1 && tx.To() != nil && len(tx.Data()) >= 4 &&
+						(bytes.Equal(tx.Data()[:4], leaveIDs[0]) || bytes.Equal(tx.Data()[:4], leaveIDs[1])) {
 						for _, vs := range valSmc {
 							if vs == *tx.To() {
 								prevStop = true
